@@ -451,7 +451,7 @@ func checkC20(p *Program, r *Report) {
 			}
 		}
 	}
-	r.Floor("C20.required", 7)
+	r.Floor("C20.required", 5)
 
 	// ---- C20.section / C20.reentry on every function of package bloom that has Filter roots
 	selfLocking := 0
